@@ -28,6 +28,17 @@ Tol(fn, sc) == IF fn = "Crystal_GetCrystal" THEN [rel |-> RelSingle, abs |-> F("
 SameDoubles(cd, jd, tol) == Len(cd) = Len(jd) /\ \A k \in 1..Len(cd) : FClose(cd[k], jd[k], tol.rel, tol.abs)
 SameSc(fn, c, j, sc) == c[1] = j[1] /\ (c[1] = 1 => c[2] = j[2] /\ SameDoubles(c[3], j[3], Tol(fn, sc)))
 Same(fn, c, j) == SameSc(fn, c, j, Zero)
+\* Arguments within round-off of a discontinuity.  Both implementations are discontinuous in the energy at absorption edges, table ends and
+\* duplicated knots, and they hold these abscissas at different precision (C: 11 significant digits, Java: unrounded) and pass them through
+\* different libm's.  For an argument x within 1e-10 (relative) of such a point, which side it falls on is itself round-off, so the Java outcome
+\* may equal the C outcome at x or at x (1 -+ 1e-10) -- alt holds those two C outcomes, and is empty wherever C is locally constant.
+\* Within such a neighbourhood the function may also be steep (the last cubic below an edge): a Java value that lies between the C values at
+\* the three sample arguments is an intermediate value of the same branch structure and is accepted as well.
+Between(c, j, alt) ==
+  /\ c[1] = 1 /\ j[1] = 1 /\ Len(c[3]) = 1 /\ Len(j[3]) = 1 /\ Len(alt) > 0 /\ \A k \in 1..Len(alt) : alt[k][1] = 1 /\ Len(alt[k][3]) = 1
+  /\ LET vs == {c[3][1]} \cup { alt[k][3][1] : k \in 1..Len(alt) } v == j[3][1] IN
+     (\E lo \in vs : FLe(lo, v) \/ FClose(lo, v, Rel, F("1e-300"))) /\ (\E hi \in vs : FLe(v, hi) \/ FClose(hi, v, Rel, F("1e-300")))
+SameNear(fn, c, j, sc, alt) == SameSc(fn, c, j, sc) \/ (\E k \in 1..Len(alt) : SameSc(fn, alt[k], j, sc)) \/ Between(c, j, alt)
 Why(fn, c, j) == IF c[1] # j[1] THEN (IF c[1] = 1 THEN "C returns a value, Java throws" ELSE "C reports an error, Java returns a value")
                  ELSE IF c[2] # j[2] THEN "integer / string fields of the result differ" ELSE "values differ beyond round-off"
 ===============================================================================
